@@ -8,12 +8,12 @@ def jobs(tier):
     js = []
     for kind, kn in ((0, "register"), (1, "counter")):
         js.append({"id": f"O.unknown-field.{kn}.n{n}", "func": "VerifH_C02_Deliver",
-                   "conf": {"n": n, "kind": kind, "del": n - 1, "deliveries": 3, "hasfield": 0, "class": 2, "dag": "", "orders": "all", "shortid": 0},
+                   "conf": {"n": n, "kind": kind, "del": n - 1, "deliveries": 3, "hasfield": 0, "class": 2, "dag": "", "orders": "all", "shortid": 0, "for": "C19", "fieldmask": 0},
                    "_obligation": "O", "_covers": ["delivered"], "unwind": 40, "reset_mode": True})
     js.append({"id": f"O.unknown-field-with-short-id.counter.n{n}", "func": "VerifH_C02_Deliver",
-               "conf": {"n": n, "kind": 1, "del": -1, "deliveries": 3, "hasfield": 0, "class": 2, "dag": "", "orders": "all", "shortid": 1},
+               "conf": {"n": n, "kind": 1, "del": -1, "deliveries": 3, "hasfield": 0, "class": 2, "dag": "", "orders": "all", "shortid": 1, "for": "C19", "fieldmask": 0},
                "_obligation": "O", "_covers": ["delivered"], "unwind": 40, "reset_mode": True})
-    js.append({"id": "twin", "func": "VerifH_C02_Reach", "conf": {"dag": "", "orders": "all", "shortid": 0}, "_obligation": "vacuity", "_expect": "twin", "_covers": ["end"]})
+    js.append({"id": "twin", "func": "VerifH_C02_Reach", "conf": {"dag": "", "orders": "all", "shortid": 0, "for": "C19", "fieldmask": 0}, "_obligation": "vacuity", "_expect": "twin", "_covers": ["end"]})
     return js
 
 
